@@ -1,0 +1,49 @@
+//go:build verif
+
+package htmldoc
+
+import "golang.org/x/net/html"
+
+// Verification hooks (add-only, compiled only with -tags verif): exported
+// read-only views of unexported state for the external correspondence harness.
+
+// VerifItem is one list item of a VerifElement.
+type VerifItem struct {
+	Text  string
+	Level int
+}
+
+// VerifElement is an exported copy of one parsedElement.
+type VerifElement struct {
+	Type    ElementType
+	Text    string
+	Level   int
+	Ordered bool
+	Items   []VerifItem
+	Table   *ParsedTable
+}
+
+// VerifRoot returns the document node x/net/html produced for this reader.
+func (r *Reader) VerifRoot() *html.Node { return r.doc }
+
+// VerifElements returns getElements(mode) as exported values.
+func (r *Reader) VerifElements(mode NavigationExclusionMode) []VerifElement {
+	els := r.getElements(mode)
+	out := make([]VerifElement, 0, len(els))
+	for _, e := range els {
+		v := VerifElement{Type: e.Type, Text: e.Text, Level: e.Level, Ordered: e.Ordered, Table: e.Table}
+		for _, it := range e.Items {
+			v.Items = append(v.Items, VerifItem{Text: it.Text, Level: it.Level})
+		}
+		out = append(out, v)
+	}
+	return out
+}
+
+// VerifExcluder returns shouldExclude of a fresh checker for (mode, doc).
+func VerifExcluder(mode NavigationExclusionMode, doc *html.Node) func(*html.Node) bool {
+	if mode == NavigationExclusionNone {
+		return func(*html.Node) bool { return false }
+	}
+	return newExclusionChecker(mode, doc).shouldExclude
+}
